@@ -68,7 +68,7 @@ fn field_variants() -> Vec<Rect> {
     r.height = 0xFFFF;
     v.push(r);
     for bpp in [8u16, 15, 16, 24, 32, 0, 0xFFFF] {
-        for flags in [0u16, 0x0001, 0x0401, 0x0400, 0xFBFE, 0xFFFF] {
+        for flags in [0u16, 0x0001, 0x0401, 0x0400, 0xFBFE, 0xFFFF, 0x0003, 0x0021, 0x8001, 0xFBFF, 0x0402, 0x0C01] {
             for len in [0usize, 1, 2, 255, 256] {
                 let mut r = rect(2, len);
                 r.bpp = bpp;
